@@ -91,7 +91,7 @@ def run_history(ctx, hszinc, hist, version=None, every=False):
 
 def shards(tier, seed):
     n = 14
-    out = []
+    out = [{'part': 'repo-tests'}]
     depth = 3 if tier == 'quick' else 4
     for i in range(n):
         out.append({'part': 'dfs', 'depth': depth, 'rows': [0, 2, 3] if depth == 3 else [0, 3], 'slice': [i, n]})
@@ -106,6 +106,10 @@ def shards(tier, seed):
 
 def run_shard(spec, ctx):
     import hszinc
+    if spec['part'] == 'repo-tests':
+        from vf import contracts
+        contracts.repo_tests_shard(ctx, ['grid-index'], PROP)
+        return
     if spec['part'] == 'dfs':
         ops = alphabet(spec['rows'], idx=(0, -1) if spec['depth'] >= 4 else (0, 1, -1))
         i, n = spec['slice']
